@@ -59,9 +59,10 @@ def run(ctx):
                          "quick; distinct by hash of the case term; non-trivial = at least 2 mounts after cleanupMounts and (some desired>0 "
                          "or some replica); c05coll: the same layout strata with Desired derived by the real addCollection/IncreaseDesired from 0-4 "
                          "collections (0-3 storage classes each in any order, repeated, or offered by no mount; replication_desired null or 0-4; "
-                         "some collections referencing only another block) and the change sets computed by ComputeChangeSets (non-trivial: also >= 1 "
+                         "some collections referencing only another block), block size hints +0 (also the empty block under its real name), +1, +3, +67108864, "
+                         "two more strata (no replica; all read-only), and the change sets computed by ComputeChangeSets, lost read from the lost-blocks report (non-trivial: also >= 1 "
                          "referencing collection); c05seq: 2-4 runs of one keep-balance process (Server.runOnce) against a stub cluster of 3-5 "
-                         "services (read-only mounts/services, shared and blank devices, classes, 2-4 blocks, 1-4 collections), five strata (stable "
+                         "services (read-only mounts/services, shared and blank devices, classes, 2-4 blocks with varying size hints of which 1/4 exist nowhere, 1-5 collections - in half of the sequences a run of one modified_at longer than the page), five strata (stable "
                          "service list with failing requests; changing service list; a failing ClearTrashLists PUT right after a change; random incl. "
                          "restarts; keepstores holding lists of an earlier process), one failing request per run chosen by kind and target, four "
                          "failure kinds (non-trivial = >= 2 runs and >= 1 complete committing run)",
